@@ -179,7 +179,7 @@ var zxCorpus = []zxQuery{
 
 var zxPartitionKeys = [][]string{{"x"}, {"x", "y"}, nil}
 
-//zx:harness prop=C11+C10 id=C11.V tier=quick mode=real shard=q:27,keys:3 R=2 NP=2 quick.ny=2 quick.nperiods=1 thorough.R=3 thorough.NP=3 paths=20000
+//zx:harness prop=C11+C10 id=C11.V tier=quick mode=real shard=q:27,keys:3 R=2 NP=2 quick.ny=2 quick.nperiods=1 paths=20000 thorough.R=3 thorough.NP=3 thorough.ny=3 thorough.nperiods=2 thorough.shard=q:27,keys:3,np:3
 func zxC11Validate() {
 	q := zxCorpus[vrtShape("q", len(zxCorpus))]
 	partitionBy := zxPartitionKeys[vrtShape("keys", len(zxPartitionKeys))]
@@ -274,7 +274,7 @@ var zxHavingCases = []zxHavingCase{
 // C08.H — HAVING keeps exactly the rows of the HAVING-free query whose reported values satisfy
 // the predicate, with the same values and without the helper column.
 //
-//zx:harness prop=C08 id=C08.H tier=quick mode=real shard=case:7,x0:2 R=2 quick.ny=2 quick.nperiods=1 thorough.R=3
+//zx:harness prop=C08 id=C08.H tier=quick mode=real shard=case:7,x0:2 R=2 quick.ny=2 quick.nperiods=1 thorough.R=3 thorough.ny=3 thorough.nperiods=2 thorough.shard=case:7,x0:2,y0:3
 func zxC08Having() {
 	c := zxHavingCases[vrtShape("case", len(zxHavingCases))]
 	periods := vrtShape("periods", vrtParam("nperiods", 2)) + 3 - vrtParam("nperiods", 2)
@@ -343,7 +343,7 @@ func zxStripWhere(sql string) string {
 // C08.W — WHERE over dimensions returns what the same query without WHERE returns when only the
 // rows whose dimensions satisfy the predicate are in the table.
 //
-//zx:harness prop=C08 id=C08.W tier=quick mode=real shard=case:9,x0:3 R=2 xabsent=1 quick.ny=3 quick.nperiods=1 thorough.R=3
+//zx:harness prop=C08 id=C08.W tier=quick mode=real shard=case:9,x0:3 R=2 xabsent=1 quick.ny=3 quick.nperiods=1 thorough.R=3 thorough.ny=3 thorough.nperiods=2 thorough.shard=case:9,x0:3,y0:3
 func zxC08Where() {
 	c := zxWhereCases[vrtShape("case", len(zxWhereCases))]
 	periods := vrtShape("periods", vrtParam("nperiods", 2)) + 3 - vrtParam("nperiods", 2)
@@ -400,7 +400,7 @@ var zxGroupCases = []zxGroupCase{
 // (T-P, T]; periods are disjoint and every stored value inside the window lands in exactly one
 // output row (reference computed in the harness from the raw rows).
 //
-//zx:harness prop=C06 id=C06.Q tier=quick mode=real shard=case:10,x0:2 R=2 quick.ny=2 thorough.R=3
+//zx:harness prop=C06 id=C06.Q tier=quick mode=real shard=case:10,x0:2 R=2 quick.ny=2 thorough.R=3 thorough.ny=3 thorough.shard=case:10,x0:2,y0:3
 func zxC06Query() {
 	c := zxGroupCases[vrtShape("case", len(zxGroupCases))]
 	periods := 3
@@ -505,7 +505,7 @@ var zxInCases = []zxInCase{
 // sub-query returns (the list is computed in the harness from the raw rows and the sub-query's
 // WHERE/HAVING meaning, then spliced into the outer query as literals).
 //
-//zx:harness prop=C08 id=C08.I tier=quick mode=real shard=case:4,x0:2 R=3 quick.ny=2 quick.nperiods=1
+//zx:harness prop=C08 id=C08.I tier=quick mode=real shard=case:4,x0:2 R=3 quick.ny=2 quick.nperiods=1 thorough.R=4 thorough.ny=3 thorough.shard=case:4,x0:2,y0:3
 func zxC08InSubquery() {
 	c := zxInCases[vrtShape("case", len(zxInCases))]
 	periods := 1
@@ -614,7 +614,7 @@ func zxC07TimeRange() {
 // returns exactly rows m .. m+n-1 of the ordered result of the same query without LIMIT, for
 // n, m >= 0 including 0 and values beyond the row count; never more, never rows outside it.
 //
-//zx:harness prop=C09 id=C09.P tier=quick mode=real shard=n:4,m:4 R=3 quick.ny=2
+//zx:harness prop=C09 id=C09.P tier=quick mode=real shard=n:4,m:4 R=3 quick.ny=2 thorough.R=4 thorough.ny=3 thorough.shard=n:4,m:4,x0:2
 func zxC09PlannerLimit() {
 	rows := zxInRows(vrtParam("R", 3), 1)
 	tbl := zxTableOf("t", rows, 1, []string{"x"})
